@@ -430,4 +430,699 @@ theorem metadata_inv (c : MCfg) (rid : Nat) (q : MetaReq) (fp fm : Bool) (st : M
         exact hadm
     exact metaMirror_inv node emptyHash leaf c rid q fm pend st1 i1 hadm1 hle (by rw [f1.hist]; exact p1 pend rfl)
 
+/-! ### the package step -/
+
+theorem conflictNext_inv (c : MCfg) (r : Req) (fp : Bool) (st : MState) (hi : MInv node emptyHash leaf c st)
+    (hr : ∀ k, payloadCk c.origin r.payload = some k → k ∈ st.w.hist) :
+    MInv node emptyHash leaf c (conflictNext emptyHash c r fp st).1 := by
+  unfold conflictNext
+  split
+  · exact hi
+  · split
+    · exact (conflict_inv node emptyHash leaf c 202 ⟨r.ck, r.payload⟩ _ st hi hr).1
+    · obtain ⟨i1, f1, _, _, _, _, p1⟩ := fetchPending_inv node emptyHash leaf c fp st hi
+      split
+      · rename_i st1 heq
+        rw [heq] at i1; exact i1
+      · rename_i st1 p heq
+        rw [heq] at i1 f1 p1
+        replace i1 : MInv node emptyHash leaf c st1 := i1
+        replace f1 : Frame st st1 := f1
+        replace p1 : ∀ p', some p = some p' → p'.ck ∈ st.w.hist ∧ (∀ k, payloadCk c.origin p'.payload = some k → k ∈ st.w.hist) := p1
+        exact (conflict_inv node emptyHash leaf c 202 p _ st1 i1 (by rw [f1.hist]; exact (p1 p rfl).2)).1
+
+theorem rs_mod (r : Req) : r.rs % 256 = 0 := by unfold Req.rs; omega
+theorem rs_le (r : Req) : r.rs ≤ r.start := by unfold Req.rs; omega
+
+theorem lt_np {r : Req} {j : Nat} (h : j < r.numPackages) : r.rs + 256 * j < r.stop ∧ r.start ≠ r.stop := by
+  unfold Req.numPackages at h
+  have := rs_mod r
+  split at h
+  · omega
+  · rename_i hne
+    exact ⟨by omega, hne⟩
+
+theorem ge_np {r : Req} {j : Nat} (h : ¬ j < r.numPackages) (hne : r.start ≠ r.stop) (hle : r.start ≤ r.stop) :
+    r.stop ≤ r.rs + 256 * j := by
+  unfold Req.numPackages at h
+  have := rs_mod r
+  have := rs_le r
+  rw [if_neg hne] at h
+  omega
+
+theorem complete_length {st : MState} {ts stop : Nat} {xs all : List Entry} {fc : Bool}
+    (h : complete st ts stop xs fc = some all) (hx : xs.length ≤ stop - ts) : all.length = stop - ts := by
+  unfold complete at h
+  by_cases h1 : xs.length < stop - ts
+  · rw [if_pos h1] at h
+    cases hn : st.next with
+    | none => rw [hn] at h; cases h
+    | some next =>
+      rw [hn] at h
+      simp only [] at h
+      by_cases h2 : next ≤ ts
+      · rw [if_pos h2] at h; cases h
+      · rw [if_neg h2] at h
+        cases fc with
+        | false => simp at h
+        | true =>
+          simp only [Bool.not_true, Bool.false_eq_true, if_false] at h
+          generalize (if next < ts + 256 then next - ts else 256) = w at h
+          cases hd : st.data (ts / 256) w with
+          | none => rw [hd] at h; cases h
+          | some tile =>
+            rw [hd] at h
+            simp only [] at h
+            split at h
+            · cases h
+            · simp only [Option.some.injEq] at h
+              subst h
+              rw [List.length_append, List.length_take]
+              omega
+  · rw [if_neg h1] at h
+    simp only [Option.some.injEq] at h
+    subst h
+    omega
+
+theorem pkgUpload_inv (c : MCfg) (rid : Nat) (r : Req) (all : List Entry) (outs : List Fault) (st0 : MState)
+    (hi : MInv node emptyHash leaf c st0) (hr : ReqInv node emptyHash leaf c st0 r) (hlt : r.i < r.numPackages)
+    (hall : ∀ E, TruthH node emptyHash leaf st0.w.hist E →
+      all = (E.drop (r.rs + 256 * r.i)).take (min r.stop (r.rs + 256 * r.i + 256) - (r.rs + 256 * r.i)) ∧
+      min r.stop (r.rs + 256 * r.i + 256) ≤ E.length)
+    (hlen : all.length = min r.stop (r.rs + 256 * r.i + 256) - (r.rs + 256 * r.i)) :
+    MInv node emptyHash leaf c
+      (pkgUpload node emptyHash rid r all (r.ov ++ all.map leaf) (r.rs + 256 * r.i) (min r.stop (r.rs + 256 * r.i + 256)) outs st0).1 := by
+  obtain ⟨hc, hs⟩ := hi
+  generalize hts : r.rs + 256 * r.i = ts at *
+  generalize hstop : min r.stop (ts + 256) = stop at *
+  obtain ⟨hts1, hne⟩ := lt_np hlt
+  rw [hts] at hts1
+  have hmod : ts % 256 = 0 := by have := rs_mod r; omega
+  have hs1 : ts < stop := by omega
+  have hs2 : stop ≤ ts + 256 := by omega
+  have hovl : r.rs + r.ov.length = ts := by have := hr.ovlen; rw [hts] at this; omega
+  -- the overlay after this package, under any truth
+  have hov : ∀ E, TruthH node emptyHash leaf st0.w.hist E →
+      (r.ov ++ all.map leaf) = rng (E.map leaf) r.rs (r.rs + (r.ov ++ all.map leaf).length) ∧
+      r.rs + (r.ov ++ all.map leaf).length ≤ E.length := by
+    intro E hE
+    obtain ⟨ha, hb⟩ := hall E hE
+    have h1 := hr.ov E hE
+    have hl : r.rs + (r.ov ++ all.map leaf).length = stop := by
+      rw [List.length_append, List.length_map, hlen]; omega
+    rw [hl]
+    refine ⟨?_, hb⟩
+    rw [← rng_append (E.map leaf) (by omega : r.rs ≤ ts) (by omega : ts ≤ stop)]
+    rw [hovl] at h1
+    rw [← h1, rng_map_leaf, ← ha]
+  have hall' : ∀ E, TruthH node emptyHash leaf st0.w.hist E →
+      all = bundleOf E (ts / 256) (stop - ts) ∧ 256 * (ts / 256) + (stop - ts) ≤ E.length := by
+    intro E hE
+    obtain ⟨ha, hb⟩ := hall E hE
+    have e : 256 * (ts / 256) = ts := by omega
+    unfold bundleOf
+    rw [e]
+    exact ⟨ha, by omega⟩
+  obtain ⟨r1, r2, r3, r4⟩ := uploadTiles_inv node emptyHash leaf r.rs (r.ov ++ all.map leaf) all (ts / 256) (stop - ts)
+    st0.w.hist hall' hov (newTiles ts stop) outs st0 rfl (fun t ht => newTiles_pkg hmod hs1 hs2 ht) hs
+  unfold pkgUpload
+  split
+  · rename_i st1 heq
+    rw [heq] at r1 r2
+    exact ⟨ctlInv_sameCtl node emptyHash leaf r2 hc, r1⟩
+  · rename_i st1 heq
+    rw [heq] at r1 r2 r3 r4
+    replace r1 : StoreInv node emptyHash leaf st1 := r1
+    replace r2 : SameCtl st0 st1 := r2
+    replace r3 : StoreLe st0 st1 := r3
+    replace r4 : ∀ t ∈ newTiles ts stop, (st1.hash t.1 t.2.1 t.2.2).isSome ∧ (t.1 = 0 → (st1.data t.2.1 t.2.2).isSome) := r4 rfl
+    have hc1 := ctlInv_sameCtl node emptyHash leaf r2 hc
+    obtain ⟨x, hx, hx'⟩ := hr.nx
+    have hxts : ts ≤ x := by have := hx' hlt; omega
+    have hn1 : st1.next = some x := by rw [r2.next]; exact hx
+    rw [hn1]
+    simp only []
+    obtain ⟨hm1, k1, hk1, hk1'⟩ := hc1.nx x hn1
+    have hck1 : r.ck ∈ st1.w.hist := by rw [r2.w]; exact hr.ck
+    have hstople : stop ≤ r.ck.1 := by rw [← hr.stop]; omega
+    -- the new request state
+    have hr' : ReqInv node emptyHash leaf c
+        (({ st1 with next := some (max x stop) } : MState).setReq rid (some { r with i := r.i + 1, ov := r.ov ++ all.map leaf }))
+        { r with i := r.i + 1, ov := r.ov ++ all.map leaf } := by
+      refine ⟨hck1, hr.stop, hr.le, by rw [show st1.w = st0.w from r2.w]; exact hr.pay, ?_, ⟨max x stop, rfl, ?_⟩, ?_, ?_⟩
+      · show r.i + 1 ≤ Req.numPackages { r with i := r.i + 1, ov := r.ov ++ all.map leaf }
+        exact hlt
+      · intro hlt2
+        have hlt2' : r.i + 1 < r.numPackages := hlt2
+        obtain ⟨h3, _⟩ := lt_np hlt2'
+        show r.rs + 256 * (r.i + 1) ≤ max x stop
+        omega
+      · show r.rs + (r.ov ++ all.map leaf).length = min (r.rs + 256 * (r.i + 1)) r.stop
+        rw [List.length_append, List.length_map, hlen]
+        omega
+      · intro E hE
+        exact (hov E (by rw [← r2.w]; exact hE)).1
+    refine ⟨⟨hc1.wi, hc1.hne, hc1.cache, hc1.mh, hc1.mlast, hc1.mmono, hc1.mc, ?_, ?_, hc1.tk, hc1.rel, hc1.pub⟩, ?_⟩
+    · intro y hy
+      simp only [MState.setReq, Option.some.injEq] at hy
+      subst hy
+      refine ⟨by show (mirrorCk emptyHash st1.mlock).1 ≤ max x stop; omega, ?_⟩
+      by_cases hxs : x ≤ stop
+      · exact ⟨r.ck, hck1, by omega⟩
+      · exact ⟨k1, hk1, by omega⟩
+    · intro j r' hr''
+      simp only [MState.setReq] at hr''
+      split at hr''
+      · simp only [Option.some.injEq] at hr''
+        subst hr''
+        exact hr'
+      · refine reqInv_mono (a := st1) node emptyHash leaf rfl ?_ (hc1.rq j r' hr'')
+        intro y hy
+        rw [hn1] at hy
+        simp only [Option.some.injEq] at hy
+        exact ⟨max x stop, rfl, by omega⟩
+    · refine ⟨r1.data, r1.hash, ?_, r1.cut, r1.h2d⟩
+      intro M hM hMle
+      have htop : top emptyHash (({ st1 with next := some (max x stop) } : MState).setReq rid (some { r with i := r.i + 1, ov := r.ov ++ all.map leaf })) = max x stop := by
+        unfold top
+        show max ((some (max x stop)).getD 0) (mirrorCk emptyHash st1.mlock).1 = max x stop
+        simp only [Option.getD_some]
+        omega
+      rw [htop] at hMle
+      have htop1 : x ≤ top emptyHash st1 := by unfold top; rw [hn1]; simp only [Option.getD_some]; omega
+      by_cases hMx : M ≤ x
+      · exact r1.comp M hM (by omega)
+      · -- the frontier moved to the end of a full package
+        have hMe : M = ts + 256 := by omega
+        subst hMe
+        intro l n w ht
+        rcases newTiles_cover hmod ht with h | h
+        · exact r1.comp ts hmod (by omega) l n w h
+        · have hse : stop = ts + 256 := by omega
+          rw [hse] at r4
+          exact r4 (l, n, w) h
+
+theorem pkgFull_inv (inj : NodeInj node) (linj : LeafInj leaf) (c : MCfg) (rid : Nat) (r : Req) (xs : List Entry)
+    (proof : List Hash) (fc : Bool) (outs : List Fault) (st0 : MState)
+    (hi : MInv node emptyHash leaf c st0) (hr : ReqInv node emptyHash leaf c st0 r) (hlt : r.i < r.numPackages)
+    (hxs : xs.length = min r.stop (r.rs + 256 * r.i + 256) - max r.start (r.rs + 256 * r.i)) :
+    MInv node emptyHash leaf c
+      (pkgFull node emptyHash leaf rid r xs proof fc outs (r.rs + 256 * r.i) (min r.stop (r.rs + 256 * r.i + 256)) st0).1 := by
+  unfold pkgFull
+  split
+  · exact hi
+  · rename_i all hcomp
+    simp only []
+    split
+    · exact hi
+    · rename_i hchk
+      simp only [Bool.not_eq_true', Bool.not_eq_false] at hchk
+      have hlen := complete_length hcomp (by omega)
+      refine pkgUpload_inv node emptyHash leaf c rid r all outs st0 hi hr hlt ?_ hlen
+      intro E hE
+      obtain ⟨a1, a2, _⟩ := auth node emptyHash leaf inj linj hi.ctl.wi.chain hr.ck hE hchk hlen
+      obtain ⟨b1, _⟩ := truth_mem node emptyHash leaf hi.ctl.wi.chain hE hr.ck
+      exact ⟨a1, by omega⟩
+
+theorem pkgStep_inv (inj : NodeInj node) (linj : LeafInj leaf) (c : MCfg) (rid : Nat) (inp : PkgIn) (fc fp : Bool)
+    (outs : List Fault) (st : MState) (hi : MInv node emptyHash leaf c st) :
+    MInv node emptyHash leaf c (pkgStep node emptyHash leaf c rid inp fc fp outs st).1 := by
+  unfold pkgStep
+  split
+  · exact hi
+  · rename_i r hreq
+    split
+    · exact hi
+    · rename_i hlt
+      have hr := hi.ctl.rq rid r hreq
+      have hi0 := setReq_none_inv node emptyHash leaf c rid st hi
+      have hr0 : ReqInv node emptyHash leaf c (st.setReq rid none) r := reqInv_congr (a := st) node emptyHash leaf rfl rfl hr
+      simp only []
+      split
+      · split
+        · exact hi0
+        · exact conflictNext_inv node emptyHash leaf c r fp _ hi0 hr.pay
+      · exact hi0
+      · rename_i xs proof
+        split
+        · exact hi
+        · rename_i hlen
+          exact pkgFull_inv node emptyHash leaf inj linj c rid r xs proof fc outs _ hi0 hr0 (by omega) (by omega)
+
+/-! ### the commit step -/
+
+theorem le_last_of_pairwise {l : List (Nat × Hash)} (hp : l.Pairwise (fun a b => a.1 ≤ b.1)) {k kl : Nat × Hash}
+    (hk : k ∈ l) (hl : l.getLast? = some kl) : k.1 ≤ kl.1 := by
+  obtain ⟨ys, hys⟩ := List.getLast?_eq_some_iff.1 hl
+  rw [hys] at hk hp
+  rcases List.mem_append.1 hk with h | h
+  · exact (List.pairwise_append.1 hp).2.2 k h kl (by simp)
+  · simp only [List.mem_singleton] at h; subst h; exact Nat.le_refl _
+
+/-- the states `commitRecord` can end in -/
+theorem record_inv (c : MCfg) (st2 s : MState) (ck : Nat × Hash) (next : Nat) (hi : MInv node emptyHash leaf c st2)
+    (hck : ck ∈ st2.w.hist) (hn : st2.next = some next) (hge : ck.1 ≤ next)
+    (hmir : (mirrorCk emptyHash st2.mlock).1 ≤ ck.1)
+    (hcut : ck.1 % 256 ≠ 0 → (st2.hash 0 (ck.1 / 256) (ck.1 % 256)).isSome)
+    (e_w : s.w = st2.w) (e_data : s.data = st2.data) (e_hash : s.hash = st2.hash) (e_next : s.next = st2.next)
+    (e_reqs : s.reqs = st2.reqs) (e_issued : s.issued = st2.issued)
+    (e_lock : (s.mlock = st2.mlock ∧ s.mhist = st2.mhist) ∨ ((∃ n, s.mlock = some (ck, n)) ∧ s.mhist = st2.mhist ++ [ck]))
+    (e_mc : s.mcache = none ∨ s.mcache = some s.mlock)
+    (e_pub : s.mpub = st2.mpub ∨ (s.mpub = some ck ∧ ck ∈ s.mhist))
+    (e_rel : s.released = st2.released ∨ (s.released = st2.released ++ [ck] ∧ ck ∈ s.mhist)) :
+    MInv node emptyHash leaf c s := by
+  obtain ⟨hc, hs⟩ := hi
+  have hsub : ∀ k ∈ st2.mhist, k ∈ s.mhist := by
+    intro k hk
+    rcases e_lock with ⟨_, e⟩ | ⟨_, e⟩ <;> rw [e]
+    · exact hk
+    · exact List.mem_append_left _ hk
+  have hmk : (mirrorCk emptyHash s.mlock).1 ≤ next := by
+    rcases e_lock with ⟨e, _⟩ | ⟨⟨n, e⟩, _⟩ <;> rw [e]
+    · exact (hc.nx next hn).1
+    · exact hge
+  have htop : top emptyHash s = top emptyHash st2 := by
+    unfold top
+    rw [e_next, hn]
+    simp only [Option.getD_some]
+    have := (hc.nx next hn).1
+    omega
+  refine ⟨⟨by rw [e_w]; exact hc.wi, by rw [e_w]; exact hc.hne, by rw [e_w]; exact hc.cache, ?_, ?_, ?_, ?_, ?_, ?_,
+    by rw [e_issued, e_w]; exact hc.tk, ?_, ?_⟩, ⟨by rw [e_w, e_data]; exact hs.data, by rw [e_w, e_hash]; exact hs.hash, ?_, ?_,
+    by rw [e_hash, e_data]; exact hs.h2d⟩⟩
+  · -- mh
+    intro k hk
+    rw [e_w]
+    rcases e_lock with ⟨_, e⟩ | ⟨_, e⟩ <;> rw [e] at hk
+    · exact hc.mh k hk
+    · rcases List.mem_append.1 hk with h | h
+      · exact hc.mh k h
+      · simp only [List.mem_singleton] at h; subst h; exact hck
+  · -- mlast
+    rcases e_lock with ⟨e1, e2⟩ | ⟨⟨n, e1⟩, e2⟩ <;> rw [e1, e2]
+    · exact hc.mlast
+    · simp
+  · -- mmono
+    rcases e_lock with ⟨_, e⟩ | ⟨_, e⟩ <;> rw [e]
+    · exact hc.mmono
+    · rw [List.pairwise_append]
+      refine ⟨hc.mmono, by simp, ?_⟩
+      intro a ha b hb
+      simp only [List.mem_singleton] at hb
+      subst hb
+      cases hml : st2.mlock with
+      | none =>
+        have := hc.mlast
+        rw [hml] at this
+        simp only [Option.map_none, List.getLast?_eq_none_iff] at this
+        rw [this] at ha; cases ha
+      | some v =>
+        have hl := hc.mlast
+        rw [hml] at hl
+        simp only [Option.map_some] at hl
+        have := le_last_of_pairwise hc.mmono ha hl
+        rw [hml] at hmir
+        simp only [mirrorCk] at hmir
+        omega
+  · -- mc
+    intro v hv
+    rcases e_mc with e | e <;> rw [e] at hv
+    · cases hv
+    · exact (Option.some.inj hv).symm
+  · -- nx
+    intro x hx
+    rw [e_next, hn] at hx
+    simp only [Option.some.injEq] at hx
+    subst hx
+    rw [e_w]
+    exact ⟨hmk, (hc.nx _ hn).2⟩
+  · -- rq
+    intro rid r hr
+    rw [e_reqs] at hr
+    exact reqInv_congr (a := st2) node emptyHash leaf (by rw [e_w]) e_next (hc.rq rid r hr)
+  · -- rel
+    intro k hk
+    rcases e_rel with e | ⟨e, hm⟩ <;> rw [e] at hk
+    · exact hsub k (hc.rel k hk)
+    · rcases List.mem_append.1 hk with h | h
+      · exact hsub k (hc.rel k h)
+      · simp only [List.mem_singleton] at h; subst h; exact hm
+  · -- pub
+    intro k hk
+    rcases e_pub with e | ⟨e, hm⟩ <;> rw [e] at hk
+    · exact hsub k (hc.pub k hk)
+    · simp only [Option.some.injEq] at hk; subst hk; exact hm
+  · -- comp
+    intro M hM hle l n w ht
+    rw [htop] at hle
+    rw [e_hash, e_data]
+    exact hs.comp M hM hle l n w ht
+  · -- cut
+    intro k hk hk'
+    rw [e_hash]
+    rcases e_lock with ⟨_, e⟩ | ⟨_, e⟩ <;> rw [e] at hk
+    · exact hs.cut k hk hk'
+    · rcases List.mem_append.1 hk with h | h
+      · exact hs.cut k h hk'
+      · simp only [List.mem_singleton] at h; subst h; exact hcut hk'
+
+theorem commitRecord_inv (c : MCfg) (r : Req) (rep up : Fault) (st2 : MState) (next : Nat)
+    (hi : MInv node emptyHash leaf c st2) (hck : r.ck ∈ st2.w.hist) (hn : st2.next = some next) (hge : r.ck.1 ≤ next)
+    (hmir : (mirrorCk emptyHash st2.mlock).1 ≤ r.ck.1)
+    (hcut : r.ck.1 % 256 ≠ 0 → (st2.hash 0 (r.ck.1 / 256) (r.ck.1 % 256)).isSome) :
+    MInv node emptyHash leaf c (commitRecord r rep up st2).1 := by
+  unfold commitRecord
+  simp only []
+  split
+  · exact hi
+  · rename_i v hmc
+    have hv := hi.ctl.mc v hmc
+    subst hv
+    simp only [decide_true, Bool.true_and]
+    have hisok : ∀ f : Fault, f.isOk = true → f.applied = true := by intro f; cases f <;> simp [Fault.isOk, Fault.applied]
+    split
+    · -- the compare-and-swap reported an error
+      cases hra : rep.applied
+      · exact record_inv node emptyHash leaf c st2 _ r.ck next hi hck hn hge hmir hcut rfl rfl rfl rfl rfl rfl
+          (Or.inl ⟨by simp, by simp⟩) (Or.inl rfl) (Or.inl rfl) (Or.inl rfl)
+      · exact record_inv node emptyHash leaf c st2 _ r.ck next hi hck hn hge hmir hcut rfl rfl rfl rfl rfl rfl
+          (Or.inr ⟨⟨st2.serial, by simp⟩, by simp⟩) (Or.inl rfl) (Or.inl rfl) (Or.inl rfl)
+    · rename_i hok
+      simp only [Bool.not_eq_true', Bool.not_eq_false] at hok
+      have hra := hisok rep hok
+      split
+      · cases hua : up.applied
+        · exact record_inv node emptyHash leaf c st2 _ r.ck next hi hck hn hge hmir hcut rfl rfl rfl rfl rfl rfl
+            (Or.inr ⟨⟨st2.serial, by simp⟩, by simp⟩) (Or.inr (by simp)) (Or.inl (by simp)) (Or.inl rfl)
+        · exact record_inv node emptyHash leaf c st2 _ r.ck next hi hck hn hge hmir hcut rfl rfl rfl rfl rfl rfl
+            (Or.inr ⟨⟨st2.serial, by simp⟩, by simp⟩) (Or.inr (by simp)) (Or.inr ⟨by simp, by simp⟩) (Or.inl rfl)
+      · rename_i huok
+        simp only [Bool.not_eq_true', Bool.not_eq_false] at huok
+        have hua := hisok up huok
+        exact record_inv node emptyHash leaf c st2 _ r.ck next hi hck hn hge hmir hcut rfl rfl rfl rfl rfl rfl
+          (Or.inr ⟨⟨st2.serial, by simp⟩, by simp⟩) (Or.inr (by simp)) (Or.inr ⟨by simp [hua], by simp⟩)
+          (Or.inr ⟨rfl, by simp⟩)
+
+theorem commitDecide_inv (c : MCfg) (r : Req) (fp fh fw : Bool) (ud uh rep up : Fault) (mir : PCk) (next : Nat)
+    (st1 : MState) (hi : MInv node emptyHash leaf c st1) (hck : r.ck ∈ st1.w.hist)
+    (hm : mir = mirrorP emptyHash st1.mlock) (hn : st1.next = some next) :
+    MInv node emptyHash leaf c (commitDecide emptyHash leaf c r fp fh fw ud uh rep up mir next st1).1 := by
+  unfold commitDecide
+  split
+  · exact hi
+  rename_i hge
+  split
+  · obtain ⟨i1, f1, _, _, _, _, p1⟩ := fetchPending_inv node emptyHash leaf c fp st1 hi
+    split
+    · rename_i st2 heq
+      rw [heq] at i1; exact i1
+    · rename_i st2 p heq
+      rw [heq] at i1 f1 p1
+      replace i1 : MInv node emptyHash leaf c st2 := i1
+      replace f1 : Frame st1 st2 := f1
+      replace p1 : ∀ p', some p = some p' → p'.ck ∈ st1.w.hist ∧ (∀ k, payloadCk c.origin p'.payload = some k → k ∈ st1.w.hist) := p1
+      exact (conflict_inv node emptyHash leaf c 409 p _ st2 i1 (by rw [f1.hist]; exact (p1 p rfl).2)).1
+  · rename_i hmir
+    obtain ⟨r1, r2, r3, r4⟩ := ensureCut_inv node emptyHash leaf r.ck.1 next fh fw ud uh st1 hi.store
+    split
+    · rename_i st2 heq
+      rw [heq] at r1 r2
+      exact ⟨ctlInv_sameCtl node emptyHash leaf r2 hi.ctl, r1⟩
+    · rename_i st2 heq
+      rw [heq] at r1 r2 r4
+      replace r2 : SameCtl st1 st2 := r2
+      have i2 : MInv node emptyHash leaf c st2 := ⟨ctlInv_sameCtl node emptyHash leaf r2 hi.ctl, r1⟩
+      refine commitRecord_inv node emptyHash leaf c r rep up st2 next i2 (by rw [r2.w]; exact hck) (by rw [r2.next]; exact hn)
+        (by omega) ?_ (fun h => r4 rfl h)
+      rw [r2.mlock, ← mirrorP_ck, ← hm]
+      omega
+
+theorem commitStep_inv (c : MCfg) (rid : Nat) (fm fp fh fw : Bool) (ud uh rep up : Fault) (st : MState)
+    (hi : MInv node emptyHash leaf c st) :
+    MInv node emptyHash leaf c (commitStep emptyHash leaf c rid fm fp fh fw ud uh rep up st).1 := by
+  unfold commitStep
+  split
+  · exact hi
+  · rename_i r hreq
+    split
+    · exact hi
+    · have hr := hi.ctl.rq rid r hreq
+      have hi0 := setReq_none_inv node emptyHash leaf c rid st hi
+      simp only []
+      obtain ⟨i2, f2, w2, r2, s2, nx2, p2⟩ := fetchMirror_inv node emptyHash leaf c fm (st.setReq rid none) hi0
+      split
+      · rename_i st1 heq
+        rw [heq] at i2; exact i2
+      · rename_i st1 mir next heq
+        rw [heq] at i2 f2 w2 p2
+        replace i2 : MInv node emptyHash leaf c st1 := i2
+        replace f2 : Frame (st.setReq rid none) st1 := f2
+        replace w2 : st1.w = (st.setReq rid none).w := w2
+        replace p2 : ∀ p x, some (mir, next) = some (p, x) → p = mirrorP emptyHash (st.setReq rid none).mlock ∧
+          st1.mcache = some (st.setReq rid none).mlock ∧ st1.next = some x := p2
+        obtain ⟨pm, _, pn⟩ := p2 mir next rfl
+        exact commitDecide_inv node emptyHash leaf c r fp fh fw ud uh rep up mir next st1 i2
+          (by rw [w2]; exact hr.ck) (by rw [f2.mlock]; exact pm) pn
+
+/-! ### restart -/
+
+theorem restart_inv (c : MCfg) (st : MState) (hi : MInv node emptyHash leaf c st) :
+    MInv node emptyHash leaf c (restart st) := by
+  obtain ⟨hc, hs⟩ := hi
+  unfold restart
+  refine ⟨⟨⟨hc.wi.chain, hc.wi.last, hc.wi.zero, hc.wi.rel, hc.wi.pub⟩, hc.hne, ?_, hc.mh, hc.mlast, hc.mmono,
+    (fun v hv => by cases hv), (fun x hx => by cases hx), (fun rid r hr => by cases hr), hc.tk, hc.rel, hc.pub⟩,
+    ⟨hs.data, hs.hash, ?_, hs.cut, hs.h2d⟩⟩
+  · intro v k hv
+    simp [OState.restart, OState.setCache] at hv
+  · intro M hM hle
+    refine hs.comp M hM ?_
+    unfold top at hle ⊢
+    simp only [Option.getD_none] at hle
+    omega
+
+/-! ### an add-checkpoint request -/
+
+/-- the cached copies after a step of the witness are old cached copies, the old stored value or the new one -/
+def CacheStep (w0 w : OState) : Prop :=
+  ∀ i v, w.cache i = some v → w0.cache i = some v ∨ v = w0.lock ∨ v = w.lock
+
+theorem execFetch_cache (e : Env) (st : OState) :
+    (execFetch emptyHash e st).1.lock = st.lock ∧
+    ∀ i v, (execFetch emptyHash e st).1.cache i = some v → st.cache i = some v ∨ v = st.lock := by
+  unfold execFetch
+  split
+  · exact ⟨rfl, fun i v h => Or.inl h⟩
+  · split
+    · exact ⟨rfl, fun i v h => Or.inl h⟩
+    · exact ⟨rfl, fun i v h => Or.inl h⟩
+    · refine ⟨rfl, fun i v h => ?_⟩
+      simp only [OState.setCache] at h
+      split at h
+      · right; exact (Option.some.inj h).symm
+      · left; exact h
+
+theorem execReplace_cache (e : Env) (st : OState) :
+    ∀ i v, (execReplace e st).1.cache i = some v → st.cache i = some v ∨ v = (execReplace e st).1.lock := by
+  intro i v
+  unfold execReplace
+  split
+  · rename_i cv s hc hs
+    simp only []
+    by_cases hi : i = e.inst
+    · subst hi
+      by_cases hv : cv = st.lock <;> cases ho : e.replaceOut <;>
+        simp [hv, Out.applied, Out.seen, OState.setCache] <;> intro h <;>
+        first | exact Or.inl h | exact Or.inr h.symm | exact Or.inr h
+    · by_cases hv : cv = st.lock <;> cases ho : e.replaceOut <;>
+        simp [hv, hi, Out.applied, Out.seen, OState.setCache] <;> intro h <;> exact Or.inl h
+  · intro h; exact Or.inl h
+
+theorem execUpload_cache (e : Env) (st : OState) :
+    (execUpload e st).1.cache = st.cache ∧ (execUpload e st).1.lock = st.lock := by
+  unfold execUpload
+  split
+  · split <;> exact ⟨rfl, rfl⟩
+  · exact ⟨rfl, rfl⟩
+
+theorem finish_cache (e : Env) (st : OState) : (finish e st).1.cache = st.cache ∧ (finish e st).1.lock = st.lock := by
+  unfold finish
+  split <;> exact ⟨rfl, rfl⟩
+
+theorem addCheckpoint_cache (e : Env) (st : OState) : CacheStep st (addCheckpoint node emptyHash e st).1 := by
+  rw [addCheckpoint_nf]
+  split
+  · intro i v h; exact Or.inl h
+  · obtain ⟨fl, fc⟩ := execFetch_cache emptyHash e st
+    have hst1 : ∀ st1, st1 = (execFetch emptyHash e st).1 → CacheStep st st1 := by
+      intro st1 h1 i v h
+      subst h1
+      rcases fc i v h with h' | h'
+      · exact Or.inl h'
+      · exact Or.inr (Or.inl h')
+    split
+    · rename_i st1 heq
+      exact hst1 st1 (by rw [heq])
+    · rename_i st1 heq
+      exact hst1 st1 (by rw [heq])
+    · rename_i st1 heq
+      have e1 : st1 = (execFetch emptyHash e st).1 := by rw [heq]
+      have fl1 : st1.lock = st.lock := by rw [e1]; exact fl
+      have fc1 : ∀ i v, st1.cache i = some v → st.cache i = some v ∨ v = st.lock := by rw [e1]; exact fc
+      unfold afterFetch
+      split
+      · exact hst1 st1 e1
+      · unfold afterMid
+        have rc := execReplace_cache e st1
+        have hst2 : ∀ st2, st2 = (execReplace e st1).1 → ∀ st3, st3.cache = st2.cache → st3.lock = st2.lock → CacheStep st st3 := by
+          intro st2 h2 st3 hc3 hl3 i v h
+          subst h2
+          rw [hc3] at h
+          rcases rc i v h with h' | h'
+          · rcases fc1 i v h' with h'' | h''
+            · exact Or.inl h''
+            · exact Or.inr (Or.inl h'')
+          · right; right; rw [hl3]; exact h'
+        split
+        · rename_i st2 heq2
+          exact hst2 st2 (by rw [heq2]) st2 rfl rfl
+        · rename_i st2 heq2
+          exact hst2 st2 (by rw [heq2]) st2 rfl rfl
+        · rename_i st2 heq2
+          unfold afterUpload
+          obtain ⟨uc, ul⟩ := execUpload_cache e st2
+          split
+          · rename_i st3 heq3
+            rw [heq3] at uc ul
+            exact hst2 st2 (by rw [heq2]) st3 uc ul
+          · rename_i st3 heq3
+            rw [heq3] at uc ul
+            exact hst2 st2 (by rw [heq2]) st3 uc ul
+          · rename_i st3 heq3
+            rw [heq3] at uc ul
+            obtain ⟨c4, l4⟩ := finish_cache e st3
+            exact hst2 st2 (by rw [heq2]) _ (c4.trans uc) (l4.trans ul)
+
+theorem truth_back {hist hist' : List (Nat × Hash)} (hc' : hist'.Pairwise (Consistent node emptyHash)) (hne : hist ≠ [])
+    (hext : hist' = hist ∨ ∃ x, hist' = hist ++ [x]) {E' : List Entry} (ht : TruthH node emptyHash leaf hist' E') :
+    ∃ N, TruthH node emptyHash leaf hist (E'.take N) ∧ N ≤ E'.length ∧ ∀ k ∈ hist, k.1 ≤ N := by
+  rcases hext with rfl | ⟨x, rfl⟩
+  · refine ⟨E'.length, by rw [List.take_length]; exact ht, Nat.le_refl _, ?_⟩
+    intro k hk
+    exact (truth_mem node emptyHash leaf hc' ht hk).1
+  · obtain ⟨kl, hkl⟩ : ∃ kl, hist.getLast? = some kl := by
+      cases h : hist.getLast? with
+      | none => exact absurd (List.getLast?_eq_none_iff.1 h) hne
+      | some kl => exact ⟨kl, rfl⟩
+    have hmem : kl ∈ hist := List.mem_of_getLast? hkl
+    obtain ⟨h1, h2⟩ := truth_mem node emptyHash leaf hc' ht (List.mem_append_left _ hmem)
+    refine ⟨kl.1, ⟨kl, hkl, ?_, ?_⟩, h1, ?_⟩
+    · show ((E'.take kl.1).map leaf).length = kl.1
+      rw [List.length_map, List.length_take]; omega
+    · show mth node emptyHash ((E'.take kl.1).map leaf) = kl.2
+      rw [List.map_take]; exact h2.symm
+    · intro k hk
+      exact mem_le_last node emptyHash (List.pairwise_append.1 hc').1 hk hkl
+
+theorem addCk_inv (inj : NodeInj node) (c : MCfg) (e : Env) (st : MState) (hi : MInv node emptyHash leaf c st)
+    (ho : e.origin = c.origin) :
+    MInv node emptyHash leaf c { st with w := (addCheckpoint node emptyHash e st.w).1 } := by
+  obtain ⟨hc, hs⟩ := hi
+  have hwi' : Witness.Inv node emptyHash c.origin (addCheckpoint node emptyHash e st.w).1 := by
+    rw [← ho]; exact inv_add node emptyHash inj e (by rw [ho]; exact hc.wi)
+  have hext : (addCheckpoint node emptyHash e st.w).1.hist = st.w.hist ∨
+      ∃ x, (addCheckpoint node emptyHash e st.w).1.hist = st.w.hist ++ [x] := by
+    rcases addCheckpoint_summary node emptyHash e st.w _ rfl with ⟨_, h, _⟩ | ⟨_, _, _, h, _⟩
+    · exact Or.inl h
+    · exact Or.inr ⟨_, h⟩
+  have hsub : ∀ k ∈ st.w.hist, k ∈ (addCheckpoint node emptyHash e st.w).1.hist := by
+    intro k hk
+    rcases hext with h | ⟨x, h⟩ <;> rw [h]
+    · exact hk
+    · exact List.mem_append_left _ hk
+  have hback := fun E' ht => truth_back node emptyHash leaf (hist := st.w.hist) hwi'.chain hc.hne hext (E' := E') ht
+  refine ⟨⟨hwi', ?_, ?_, fun k hk => hsub k (hc.mh k hk), hc.mlast, hc.mmono, hc.mc, ?_, ?_,
+    fun t ht k hk => hsub k (hc.tk t ht k hk), hc.rel, hc.pub⟩, ⟨?_, ?_, hs.comp, hs.cut, hs.h2d⟩⟩
+  · rcases hext with h | ⟨x, h⟩ <;> simp only [] <;> rw [h]
+    · exact hc.hne
+    · simp
+  · intro v k hv hk
+    rcases addCheckpoint_cache node emptyHash e st.w 0 v hv with h | h | h
+    · exact hsub k (hc.cache v k h hk)
+    · subst h; exact hsub k (List.mem_of_getLast? (hc.wi.last k hk))
+    · subst h; exact List.mem_of_getLast? (hwi'.last k hk)
+  · intro x hx
+    obtain ⟨a, k, hk, hk'⟩ := hc.nx x hx
+    exact ⟨a, k, hsub k hk, hk'⟩
+  · intro rid r hr
+    obtain ⟨h1, h2, h3, h4, h5, h6, h7, h8⟩ := hc.rq rid r hr
+    refine ⟨hsub _ h1, h2, h3, fun k hk => hsub k (h4 k hk), h5, h6, h7, ?_⟩
+    intro E' ht
+    obtain ⟨N, tN, _, hN⟩ := hback E' ht
+    have := h8 _ tN
+    rw [List.map_take, rng_take_of_le] at this
+    · exact this
+    · have := hN _ h1
+      omega
+  · intro E' ht n w es he
+    obtain ⟨N, tN, hNl, _⟩ := hback E' ht
+    obtain ⟨a, b⟩ := hs.data _ tN n w es he
+    rw [List.length_take] at b
+    rw [bundleOf_take E' (by omega)] at a
+    exact ⟨a, by omega⟩
+  · intro E' ht l n w x hx
+    obtain ⟨N, tN, hNl, _⟩ := hback E' ht
+    obtain ⟨a, b⟩ := hs.hash _ tN l n w x hx
+    rw [List.length_map, List.length_take] at b
+    rw [List.map_take, tileOf_take node emptyHash (E'.map leaf) (by omega)] at a
+    exact ⟨a, by rw [List.length_map]; omega⟩
+
+/-! ### every reachable state -/
+
+theorem init_inv (c : MCfg) (enforce : Bool) : MInv node emptyHash leaf c (MState.init emptyHash enforce) := by
+  refine ⟨⟨inv_init node emptyHash c.origin, by simp [MState.init, OState.init], ?_, ?_, rfl, List.Pairwise.nil, ?_, ?_, ?_, ?_, ?_, ?_⟩,
+    ⟨?_, ?_, ?_, ?_, ?_⟩⟩
+  · intro v k hv; simp [MState.init, OState.init] at hv
+  · intro k hk; simp [MState.init] at hk
+  · intro v hv; simp [MState.init] at hv
+  · intro x hx; simp [MState.init] at hx
+  · intro rid r hr; simp [MState.init] at hr
+  · intro t ht; simp [MState.init] at ht
+  · intro k hk; simp [MState.init] at hk
+  · intro k hk; simp [MState.init] at hk
+  · intro E _ n w es he; simp [MState.init] at he
+  · intro E _ l n w x hx; simp [MState.init] at hx
+  · intro M hM hle l n w ht
+    have h0 : M = 0 := by
+      simp only [top, MState.init, mirrorCk, Option.getD_none] at hle
+      omega
+    subst h0
+    unfold IsTile lvl at ht
+    have : 0 / 256 ^ l = 0 := Nat.zero_div _
+    omega
+  · intro k hk; simp [MState.init] at hk
+  · intro n w h; simp [MState.init] at h
+
+theorem step_inv (inj : NodeInj node) (linj : LeafInj leaf) (c : MCfg) (st : MState) (ev : Ev)
+    (hi : MInv node emptyHash leaf c st) (hadm : Admissible c st ev) :
+    MInv node emptyHash leaf c (step node emptyHash leaf c st ev).1 := by
+  cases ev with
+  | addCk e =>
+    simp only [step]
+    split
+    · rename_i h
+      exact addCk_inv node emptyHash leaf inj c e st hi h.1
+    · exact hi
+  | mdata rid q fp fm => exact metadata_inv node emptyHash leaf c rid q fp fm st hi hadm
+  | pkg rid inp fc fp outs => exact pkgStep_inv node emptyHash leaf inj linj c rid inp fc fp outs st hi
+  | commit rid fm fp fh fw ud uh rep up => exact commitStep_inv node emptyHash leaf c rid fm fp fh fw ud uh rep up st hi
+  | restart => exact restart_inv node emptyHash leaf c st hi
+
+/-- the invariant holds in every reachable state -/
+theorem reachable_inv (inj : NodeInj node) (linj : LeafInj leaf) {c : MCfg} {st : MState}
+    (hr : Reachable node emptyHash leaf c st) : MInv node emptyHash leaf c st := by
+  induction hr with
+  | init enforce => exact init_inv node emptyHash leaf c enforce
+  | step st ev _ hadm ih => exact step_inv node emptyHash leaf inj linj c st ev ih hadm
+
 end Mirror
